@@ -64,7 +64,150 @@ def native_obligations(S):
     S.static_vc("options", FN_RD, "redistributePoints on an orthogonal mesh is refused (ValueError)", refused, kind="native")
 
 
+def orchestration(S):
+    """Mesh.redistributePoints / Mesh.calculateRZ on recorder regions (exact, no numerics): the
+    equilibrium's options are reset with the settings given, every region is regridded with the
+    SAME settings object's content, once, in mesh order; calculateRZ fills every region before any
+    boundary row is copied from a neighbour, and recomputes the penalty mask last."""
+    import types
+    import warnings
+
+    from hypnotoad.core import mesh as M
+
+    log = []
+
+    class R:
+        def __init__(self, name):
+            self.name = name
+
+        def distributePointsNonorthogonal(self, settings=None):
+            log.append(("regrid", self.name, dict(settings) if settings is not None else None))
+
+        def fillRZ(self):
+            log.append(("fillRZ", self.name))
+
+        def getRZBoundary(self):
+            log.append(("getRZBoundary", self.name))
+
+        def calcPenaltyMask(self, eq):
+            log.append(("calcPenaltyMask", self.name))
+
+    regs = {k: R("r%d" % k) for k in range(3)}
+    eq = types.SimpleNamespace(resetNonorthogonalOptions=lambda s: log.append(("reset", dict(s))))
+    me = types.SimpleNamespace(equilibrium=eq, regions=regs, user_options=types.SimpleNamespace(orthogonal=False))
+    settings = dict(nonorthogonal_xpoint_poloidal_spacing_length=0.03)
+    import contextlib, io
+
+    with warnings.catch_warnings():
+        warnings.simplefilter("ignore")
+        with contextlib.redirect_stdout(io.StringIO()):
+            M.Mesh.redistributePoints(me, settings)
+    want = [("reset", settings)] + [("regrid", "r%d" % k, settings) for k in range(3)]
+    S.static_vc("orchestration", FN_RD, "redistributePoints: equilibrium options reset first, then every region regridded once with the given settings", log == want, detail=repr(log)[:600], kind="native", model=dict(log=log) if log != want else None)
+    del log[:]
+    with contextlib.redirect_stdout(io.StringIO()):
+        M.Mesh.calculateRZ(me)
+    names = ["r0", "r1", "r2"]
+    want = [("fillRZ", n) for n in names] + [("getRZBoundary", n) for n in names] + [("calcPenaltyMask", n) for n in names]
+    S.static_vc("orchestration", "hypnotoad.core.mesh:Mesh.calculateRZ", "calculateRZ: all regions filled, then all boundary rows copied, then all penalty masks", log == want, detail=repr(log)[:600], kind="native", model=dict(log=log) if log != want else None)
+
+
+def regrid_wiring(S):
+    """The real MeshRegion.distributePointsNonorthogonal on recorder contours (exact): which
+    spacing function each contour is regridded with, with which surface vectors, and that the
+    refined contours returned by the map are kept."""
+    import contextlib
+    import io
+    import types
+
+    from hypnotoad.core import mesh as M
+    from hypnotoad.core.equilibrium import Point2D, PsiContour
+
+    bad = []
+    n = 0
+    for method in ("combined", "perp_orthogonal_combined", "poloidal_orthogonal_combined"):
+        for wall_start, wall_end in ((True, False), (False, True), (False, False)):
+            for settings in (None, {}, dict(nonorthogonal_xpoint_poloidal_spacing_length=0.03)):
+                n += 1
+                log = []
+
+                class C:
+                    def __init__(self, k, psival):
+                        self.k, self.psival = k, psival
+                        self.pts = [Point2D(1.0 + 0.1 * k, -0.5), Point2D(1.0 + 0.1 * k, 0.0), Point2D(1.05 + 0.1 * k, 0.5 + 0.01 * k)]
+                        self.startInd, self.endInd = 0, 2
+
+                    def __getitem__(self, i):
+                        return self.pts[i]
+
+                    def totalDistance(self, psi=None):
+                        return 1.0
+
+                    def regrid(self, npoints, **kw):
+                        log.append(("regrid", self.k, npoints, kw))
+
+                contours = [C(0, 2.0), C(1, 2.1), C(2, 2.2)]  # contour 0 is the separatrix
+                wallvec = [0.0, 1.0]
+                er = types.SimpleNamespace(
+                    resetNonorthogonalOptions=lambda s_: log.append(("reset", dict(s_))),
+                    nonorthogonal_options=types.SimpleNamespace(nonorthogonal_spacing_method=method),
+                    wallSurfaceAtStart=wallvec if wall_start else None, wallSurfaceAtEnd=wallvec if wall_end else None,
+                    combineSfuncs=lambda *a, **k: ("combined", a, k), psi=None, extend_lower=2 if wall_start else 0, extend_upper=2 if wall_end else 0,
+                )  # fmt: skip
+                refined = [object(), object(), object()]
+                me = types.SimpleNamespace(equilibriumRegion=er, contours=list(contours), sfunc_orthogonal_list=["so0", "so1", "so2"], ny_noguards=4,
+                                           meshParent=types.SimpleNamespace(equilibrium=types.SimpleNamespace(psi_sep=[2.0])),
+                                           parallel_map=lambda f, tasks, **kw: (log.append(("map", f, [t for t in tasks])), refined)[1])  # fmt: skip
+                try:
+                    with contextlib.redirect_stdout(io.StringIO()):
+                        M.MeshRegion.distributePointsNonorthogonal(me, settings)
+                except Exception as e:
+                    bad.append(dict(method=method, problem="raised %r" % e))
+                    continue
+                prob = []
+                resets = [x for x in log if x[0] == "reset"]
+                if (settings is None and resets) or (settings is not None and resets != [("reset", dict(settings))]) or (resets and log[0][0] != "reset"):
+                    prob.append("region options reset %r for settings %r (must be reset, first, exactly when settings are given -- an empty dict included)" % (resets, settings))
+                rg = [x for x in log if x[0] == "regrid"]
+                if [x[1] for x in rg] != [0, 1, 2]:
+                    prob.append("contours regridded: %r" % [x[1] for x in rg])
+                for x in rg:
+                    k, npts, kw = x[1], x[2], x[3]
+                    if npts != 9 or kw.get("refine") is not False or kw.get("extend_lower") != er.extend_lower or kw.get("extend_upper") != er.extend_upper:
+                        prob.append("contour %d regridded with npoints=%r %r" % (k, npts, {a: kw.get(a) for a in ("refine", "extend_lower", "extend_upper")}))
+                    sf = kw.get("sfunc")
+                    if not (isinstance(sf, tuple) and sf[0] == "combined" and sf[1][0] is contours[k] and sf[1][1] == "so%d" % k):
+                        prob.append("contour %d: spacing function is not combineSfuncs(its own contour, its own orthogonal function)" % k)
+                        continue
+                    vecs = list(sf[1][2:]) + [None] * (4 - len(sf[1]))
+                    if method == "poloidal_orthogonal_combined":
+                        want = [None, None]
+                    else:
+                        want = []
+                        for lower in (True, False):
+                            wall = er.wallSurfaceAtStart if lower else er.wallSurfaceAtEnd
+                            if method == "combined" and wall is not None:
+                                want.append(None)  # 'combined': poloidal spacing near a wall, on every contour
+                            elif k == 0:  # separatrix contour: the wall's surface vector, or poloidal spacing at an X-point
+                                want.append(wall)
+                            else:
+                                cin, cout = contours[max(k - 1, 0)], contours[min(k + 1, 2)]
+                                a, b = (cin[cin.startInd], cout[cout.startInd]) if lower else (cin[cin.endInd], cout[cout.endInd])
+                                want.append([b.R - a.R, b.Z - a.Z])
+                    if vecs[:2] != want:
+                        prob.append("contour %d: surface vectors %r, wanted %r" % (k, vecs[:2], want))
+                maps = [x for x in log if x[0] == "map"]
+                if not (len(maps) == 1 and maps[0][1] is PsiContour.refine and [t[0] for t in maps[0][2]] == contours and log[-1][0] == "map" and me.contours is refined):
+                    prob.append("the regridded contours are not refined through the map, last, with the result kept")
+                if prob:
+                    bad.append(dict(method=method, wall_start=wall_start, wall_end=wall_end, settings=settings, problems=prob[:3]))
+    S.static_vc("regrid-wiring", "hypnotoad.core.mesh:MeshRegion.distributePointsNonorthogonal", "each contour is regridded once with combineSfuncs of its own orthogonal function and the surface vectors of its method / ends, options reset first exactly when settings are given, refined result kept (%d method x end x settings combinations)" % n, not bad and n == 27, detail=repr(bad[:2])[:1200], kind="native-all-classes", model=bad[0] if bad else None)
+
+
 def build(S):
+    regrid_wiring(S)
+    orchestration(S)
+    S.under_contract("hypnotoad.core.mesh:Mesh.calculateRZ")
     S.under_contract(FN_RD, FN_RS, "hypnotoad.core.equilibrium:Equilibrium.resetNonorthogonalOptions", "hypnotoad.core.mesh:MeshRegion.distributePointsNonorthogonal")
     S.assume("history independence itself is explored, not proved: sequences of 1-4 setting changes on a non-orthogonal lower single null, positions compared at 1e-6 and geometry at 1e-5 relative with a mesh built from scratch")
     native_obligations(S)
